@@ -66,8 +66,12 @@ PARTIAL = {
         "branch 6), the portal has a repeated vertex (the last _iterate_discover_portal copied v3 over v1 or v2), "
         "_portal_direction is norm_vector(0) = 0 and mpr_intersection answers True in the first refinement pass, for "
         "every pair of colliders (answer by fiat, no geometric content). Reachability from the top of mpr_intersection is "
-        "shown for max_iterations = 1 with an explicit mapping (capSup_discover_br6); no collider pair reaching the cap "
-        "with the default max_iterations is known",
+        "shown for max_iterations = 1 with an explicit mapping (capSup_discover_br6). A collider pair reaching the cap "
+        "with the DEFAULT max_iterations = 100 is known since the thorough C08 search: the exactly touching box / "
+        "4-vertex mesh of the fixed finding F-mpr-degenerate-portal-nan (known_findings.json; box size (0.076, 0.033, "
+        "0.047) at the origin, regression scene of harness/props/c08.py and c19.py) makes _discover_portal run 100 "
+        "passes of _iterate_discover_portal and declare a portal with v[1] == v[3] built; mpr_intersection answers True "
+        "on it (correct there: the pair touches), mpr_penetration returned a NaN position before /repo 045c18e",
     "mpr_refine_termination": "_refine_portal has no iteration cap; termination is not proved (model: fuel, Err.fuel)",
     "libccd_contact_origin_in_tetra_nondegenerate": "non-zero volume and 'origin on the newest point's side of the oldest face' are "
                                                     "hypotheses; zero-volume simplices make the three sign tests compare 0 == 0",
